@@ -746,8 +746,19 @@ func genApp(r *rand.Rand) genOut {
 		}
 		_ = msink
 		if usedSink && r.Intn(3) > 0 {
-			add("MNEXT nxt 11", line(vm.MNEXT, []string{"nxt", "11"}, nil, nil))
-			add("MPREV prv 22", line(vm.MPREV, []string{"prv", "22"}, nil, nil))
+			// both entries in either order, or (1 in 5 each) only one of them
+			switch r.Intn(10) {
+			case 0, 1:
+				add("MNEXT nxt 11", line(vm.MNEXT, []string{"nxt", "11"}, nil, nil))
+			case 2, 3:
+				add("MPREV prv 22", line(vm.MPREV, []string{"prv", "22"}, nil, nil))
+			case 4, 5, 6:
+				add("MPREV prv 22", line(vm.MPREV, []string{"prv", "22"}, nil, nil))
+				add("MNEXT nxt 11", line(vm.MNEXT, []string{"nxt", "11"}, nil, nil))
+			default:
+				add("MNEXT nxt 11", line(vm.MNEXT, []string{"nxt", "11"}, nil, nil))
+				add("MPREV prv 22", line(vm.MPREV, []string{"prv", "22"}, nil, nil))
+			}
 		}
 		add("HALT", line(vm.HALT, nil, nil, nil))
 		ni := r.Intn(5)
@@ -859,6 +870,9 @@ func genHistory(r *rand.Rand, sels []string, n int) [][]byte {
 			in = pick(r, []string{"!bad", " 1", "-", "\x00", "\n1", "é", "1\n", "1\n2", "+254\n1", "a\nb", " ", "\t", "\n", "\r\n", "  "})
 		default:
 			in = strings.Repeat("1", 256+r.Intn(45))
+			if r.Intn(3) == 0 { // over the limit in bytes, under it in characters
+				in = "a" + strings.Repeat("é", 128+r.Intn(40))
+			}
 		}
 		h = append(h, []byte(in))
 	}
@@ -985,6 +999,16 @@ var engineCorpus = []corpusCase{
 		fn: map[string][]eFres{"aa": st1("v"), "bb": st1(" bye")}, cfg: eCfg{FlagCount: 1, CacheSize: 100}, inputs: []string{"", "0", "x", "1", "", "0"}},
 	{name: "wide-flags", nodes: [][3]string{{"root", "LOAD aa 0; CATCH hi 264 1; HALT; INCMP lo 1", "root"}, {"hi", "HALT; INCMP _ 0", "hi"}, {"lo", "LOAD bb 0; CATCH hi 8 1; CATCH hi 300 1; HALT; INCMP _ 0", "lo"}, {"_catch", "HALT; INCMP _ *", "catch"}},
 		fn: map[string][]eFres{"aa": []eFres{{Content: "v", Set: []uint32{264}}, {Content: "w", Reset: []uint32{264}}}, "bb": []eFres{{Content: "x", Set: []uint32{300}}}}, cfg: eCfg{FlagCount: 300}, inputs: []string{"", "0", "1", "0", "0"}},
+	{name: "long-in-bytes-not-in-runes", nodes: [][3]string{{"root", "HALT; INCMP foo *", "root"}, {"foo", "LOAD aa 0; MAP aa; HALT; INCMP _ 0", "foo {{.aa}}"}, {"_catch", "HALT; INCMP _ *", "catch"}},
+		fn: map[string][]eFres{"aa": []eFres{{Content: "got:", Echo: true}}}, cfg: eCfg{FlagCount: 1}, inputs: []string{"", "a" + strings.Repeat("é", 150), "1", "0"}},
+	{name: "separator-sized-after-halt", nodes: [][3]string{{"root", "MOUT one 1; HALT; MOUT a_rather_long_label_two 2; MOUT a_rather_long_label_three 3; HALT; INCMP foo 1", "root"}, {"foo", "HALT; INCMP _ 0", "foo"}, {"_catch", "HALT; INCMP _ *", "catch"}},
+		cfg: eCfg{FlagCount: 1, Sep: ") ", Out: 40}, inputs: []string{"", "x", "1", "0"}},
+	{name: "browse-next-only", nodes: [][3]string{{"root", "LOAD aa 0; MAP aa; MNEXT nxt 11; HALT; INCMP > 11; INCMP < 22", "r {{.aa}}"}, {"_catch", "MOUT back 0; HALT; INCMP _ 0", "catch"}},
+		fn: map[string][]eFres{"aa": st1("one\ntwo\nthree\nfour\nfive\nsix")}, cfg: eCfg{FlagCount: 1, Out: 24}, inputs: []string{"", "11", "11", "22", "11"}},
+	{name: "browse-prev-first", nodes: [][3]string{{"root", "LOAD aa 0; MAP aa; MPREV prv 22; MNEXT nxt 11; HALT; INCMP > 11; INCMP < 22", "r {{.aa}}"}, {"_catch", "MOUT back 0; HALT; INCMP _ 0", "catch"}},
+		fn: map[string][]eFres{"aa": st1("one\ntwo\nthree\nfour\nfive\nsix")}, cfg: eCfg{FlagCount: 1, Out: 30}, inputs: []string{"", "11", "11", "22", "22"}},
+	{name: "reset-on-empty-at-entry-page", nodes: [][3]string{{"root", "LOAD aa 0; MAP aa; MNEXT nxt 11; MPREV prv 22; HALT; INCMP > 11; INCMP < 22; INCMP foo *", "r {{.aa}}"}, {"foo", "HALT; INCMP _ 0", "foo"}, {"_catch", "MOUT back 0; HALT; INCMP _ 0", "catch"}},
+		fn: map[string][]eFres{"aa": st1("one\ntwo\nthree\nfour\nfive\nsix")}, cfg: eCfg{FlagCount: 1, Out: 30, ResetEmpty: true}, inputs: []string{"", "11", "11", "", "11", " ", "x"}},
 	{name: "abnormal-end", nodes: [][3]string{{"root", "HALT; INCMP foo 1", "root"}, {"foo", "LOAD aa 10", "foo"}, {"_catch", "HALT; INCMP _ *", "catch"}},
 		fn: map[string][]eFres{"aa": st1("v")}, cfg: eCfg{FlagCount: 2}, inputs: []string{"", "1", "", "1"}},
 	{name: "browse-past-end", nodes: [][3]string{{"root", "LOAD aa 0; MAP aa; MNEXT nxt 11; MPREV prv 22; HALT; INCMP > 11; INCMP < 22", "r {{.aa}}"}, {"_catch", "MOUT back 0; HALT; INCMP _ 0", "catch"}},
